@@ -34,6 +34,8 @@ SPACES = {
         dict(nv=3, maxl=3, classes=("D", "U", "Ds", "O")),
         dict(nv=3, maxl=2, classes=ALL6, mutations=True),
         dict(nv=2, maxl=4, minl=4, classes=("D", "U", "O")),
+        dict(nv=2, maxl=7, minl=5, classes=("D", "U")),
+        dict(nv=3, maxl=6, minl=4, classes=("D",), pairs=[(0, 1), (1, 0), (0, 2)]),
     ],
 }
 FILTERS = ("none", "accept", "reject", "sell")
